@@ -486,13 +486,37 @@ fn process_violation(check: &str, tier: &str, base: u64, idx: u64, v: &Violation
             }
         }
     }
+    // The reduced scenario holds only the failing case. If the code under test keeps state between
+    // *cases of one run* (e.g. a process-wide cache warmed by an earlier verification), only the
+    // run's full scenario reproduces: regenerate it from the seed, confirm in a fresh process, and
+    // shrink it with one fresh process per candidate (slower, so a smaller budget).
+    if !reproduced {
+        let full = profiles::generate(check, run_seed(base, check, idx), profiles::tier_from(tier));
+        if let Some(nv) = fresh(&full) {
+            reproduced = true;
+            if let Some(nv) = nv {
+                fv = nv;
+            }
+            let (fprop, fsig) = (fv.property.clone(), fv.signature.clone());
+            let mut b2 = shrink::Budget::new(if budget_execs == 0 { 0 } else { 120 }, budget_secs.max(10) * 2);
+            let mut still2 = |cand: &Value| -> bool {
+                match exec_fresh(cand) {
+                    Reply::Report(rep) => rep.harness_error.is_none() && same_violation(&rep, &fprop, &fsig).is_some(),
+                    _ => false,
+                }
+            };
+            min = shrink::shrink(full, &mut b2, &mut still2);
+            budget.execs += b2.execs;
+        }
+    }
     // Last resort: the violation needs what the code under test remembered from worlds that ran
     // earlier in the same process (a process-wide cache, a lazily initialised static). Re-execute
     // the worker's history in one fresh process, then shrink the history.
     let mut prelude: Vec<u64> = Vec::new();
     if !reproduced && !prior.is_empty() && !scn0.is_null() {
+        let full_scn = profiles::generate(check, run_seed(base, check, idx), profiles::tier_from(tier));
         let hit = |hist: &[u64]| -> Option<Violation> {
-            match exec_after_history(check, tier, base, hist, &scn0) {
+            match exec_after_history(check, tier, base, hist, &full_scn) {
                 Reply::Report(rep) => same_violation(&rep, &prop, &sig).or_else(|| rep.violations.iter().find(|x| x.property == prop).cloned()),
                 _ => None,
             }
@@ -500,7 +524,7 @@ fn process_violation(check: &str, tier: &str, base: u64, idx: u64, v: &Violation
         if let Some(nv) = hit(prior) {
             reproduced = true;
             fv = nv;
-            min = scn0.clone();
+            min = full_scn.clone();
             let mut cur: Vec<u64> = prior.to_vec();
             let t0 = Instant::now();
             let limit = Duration::from_secs(budget_secs.max(20) * 2);
